@@ -74,6 +74,50 @@ def witnesses(mod, prop, seed, base_ctx):
     return out
 
 
+def corpus_selftest(mod, prop, seed, base_ctx):
+    """T2 (thorough tier): the check is exercised both ways on the committed corpora, applied to scratch copies of the
+    CURRENT tree (removed afterwards; /repo itself is never modified):
+      seeded/<prop>-m*                 each must make this check report a new violation
+      selftest/refactorings/<prop>-r*  each must leave this check without a new violation and decided
+    A patch that no longer applies to the current tree is skipped and listed."""
+    import shutil
+    import subprocess
+    import tempfile
+    verif = os.path.dirname(HERE)
+    base_bad = {i.key for i in base_ctx.insts if i.verdict == "violated"}
+    root = base_ctx.R.root
+    out = []
+    dirs = []
+    for sub, kind in (("seeded", "mutant"), (os.path.join("selftest", "refactorings"), "refactoring")):
+        d = os.path.join(verif, sub)
+        if os.path.isdir(d):
+            dirs += [(os.path.join(d, x), kind) for x in sorted(os.listdir(d)) if x.startswith(prop + "-")]
+    for pdir, kind in dirs:
+        rec = {"change": os.path.basename(pdir), "kind": kind}
+        scratch = tempfile.mkdtemp(prefix="batchie-verif-t2-")
+        try:
+            subprocess.check_call(["rsync", "-a", "--exclude", ".git", "--exclude", "__pycache__", root.rstrip("/") + "/", scratch + "/"])
+            r = subprocess.run(["patch", "-p1", "-s", "--no-backup-if-mismatch", "-i", os.path.join(pdir, "patch.diff")], cwd=scratch, capture_output=True, text=True)
+            if r.returncode:
+                rec["status"] = "skipped (patch does not apply to the current tree)"
+                out.append(rec)
+                continue
+            try:
+                c2 = run_rules(mod, prop, "quick", seed, repo=Repo(scratch))
+                new = sorted({i.rule for i in c2.insts if i.verdict == "violated" and i.key not in base_bad})
+                rec["fired"] = new
+                if kind == "mutant":
+                    rec["status"] = "reported" if new else ("undecided" if c2.undecided else "MISSED")
+                else:
+                    rec["status"] = "FALSE-ALARM" if new else ("undecided" if c2.undecided else "silent")
+            except AnalysisError as e:
+                rec["status"] = f"undecided ({e})"[:200]
+        finally:
+            shutil.rmtree(scratch, ignore_errors=True)
+        out.append(rec)
+    return out
+
+
 def main():
     ap = argparse.ArgumentParser()
     ap.add_argument("--property", required=True)
@@ -96,6 +140,14 @@ def main():
                 print(f"   witness {w['witness']}: {w['status']}")
             if dead:
                 raise AnalysisError("liveness witness not rejected: " + ", ".join(w["witness"] for w in dead))
+            if not os.environ.get("VERIF_NO_CORPUS"):
+                t2 = corpus_selftest(mod, prop, seed, ctx)
+                extra["corpus_selftest"] = t2
+                extra["corpus_selftest_summary"] = {k: sum(1 for x in t2 if x["status"].split(" ")[0] == k) for k in ("reported", "silent", "undecided", "skipped", "MISSED", "FALSE-ALARM")}
+                print(f"   corpus self-test: {extra['corpus_selftest_summary']}")
+                broken = [x for x in t2 if x["status"] in ("MISSED", "FALSE-ALARM")]
+                if broken:
+                    raise AnalysisError("the check fails its own corpus: " + ", ".join(f"{x['change']} {x['status']}" for x in broken))
         if a.replay:
             want = {v["rule"] + ":" + v["site"] for v in json.load(open(a.replay)).get("violations", [])}
             still = [i for i in ctx.insts if i.verdict == "violated" and i.key in want]
